@@ -433,6 +433,125 @@ func init() {
 			}
 		}
 	})
+	// subscribe || the end of the event (unregistration, owner killed): a subscription that was acknowledged
+	// is told about the end exactly once, a refused one never; a subscriber of long standing exactly once
+	for _, how := range []string{"link", "monitor"} {
+		for _, end := range []string{"unregister", "owner-killed"} {
+			how, end := how, end
+			race("race-"+how+"-"+end, 2, 3, 1, func(w *World, e *evWorld) func() {
+				w.Do("C2", func(p *probe) error { _, err := p.MonitorEvent(e.ev); return err })
+				var subErr error
+				returned := false
+				w.ex.Thread("SUB", func() {
+					w.n.Send(w.pids["C1"], doMsg{func(p *probe) error {
+						if how == "link" {
+							_, subErr = p.LinkEvent(e.ev)
+						} else {
+							_, subErr = p.MonitorEvent(e.ev)
+						}
+						returned = true
+						return nil
+					}})
+				})
+				w.ex.Thread("END", func() {
+					if end == "unregister" {
+						w.n.Send(w.pids["P"], doMsg{func(p *probe) error {
+							if err := p.UnregisterEvent("ev"); err != nil {
+								w.ex.Fail("unregister-result", "UnregisterEvent returned %v", err)
+							}
+							return nil
+						}})
+					} else {
+						w.n.Kill(w.pids["P"])
+					}
+				})
+				return func() {
+					if !returned {
+						w.ex.Fail("subscribe-hangs", "the subscription request did not return")
+						return
+					}
+					n := len(e.ends["C1"])
+					_, alive := w.n.ProcessInfo(w.pids["C1"])
+					if how == "link" && alive != nil {
+						n++ // an untrapped... (C1 traps; kept for completeness)
+					}
+					switch {
+					case subErr == nil && n != 1:
+						w.ex.Fail("subscriber-not-told-of-the-end", "%s event returned nil, the event ended (%s), the subscriber got %d notifications %v", how, end, n, e.ends["C1"])
+					case subErr != nil && n != 0:
+						w.ex.Fail("refused-subscriber-notified", "%s event returned %v, yet the process got %v", how, subErr, e.ends["C1"])
+					}
+					if len(e.ends["C2"]) != 1 {
+						w.ex.Fail("subscriber-not-told-of-the-end", "the monitor of long standing got %d notifications %v", len(e.ends["C2"]), e.ends["C2"])
+					}
+					w.Out("sub=%v ends=%v", subErr, e.ends["C1"])
+				}
+			})
+		}
+	}
+	// subscribers on another node: two of them on the same node, plus a local one
+	for _, nsub := range []int{1, 2, 3} {
+		nsub := nsub
+		harn.Register(harn.Scenario{Property: "C18", Name: fmt.Sprintf("remote-%d-subscribers", nsub), Run: func(c *harn.Ctx) *harn.Result {
+			return harn.Explore(c, harn.Sched{QuickBound: 1, ThoroughBound: 2, Preempt: false, Cache: true, HorizonS: 30, Body: netBody(netOpts{}, func(nw *NetWorld) {
+				ea := newEvWorld(nw.a)
+				eb := &evWorld{w: nw.b, ev: gen.Event{Name: "ev", Node: nw.a.n.Name()}, got: map[string][]string{}, ends: map[string][]string{}}
+				ea.producer("P")
+				ea.consumer("L")
+				names := []string{"R1", "R2", "R3"}[:nsub]
+				for _, nm := range names {
+					eb.consumer(nm)
+				}
+				nw.a.Do("P", func(p *probe) error {
+					var err error
+					ea.token, err = p.RegisterEvent("ev", gen.EventOptions{Buffer: 0})
+					return err
+				})
+				nw.connect()
+				if nw.ex.Failed() {
+					return
+				}
+				nw.a.Do("L", func(p *probe) error { _, err := p.LinkEvent(ea.ev); return err })
+				for i, nm := range names {
+					i := i
+					var err error
+					nw.b.Do(nm, func(p *probe) error {
+						if i%2 == 0 {
+							_, err = p.MonitorEvent(eb.ev)
+						} else {
+							_, err = p.LinkEvent(eb.ev)
+						}
+						return nil
+					})
+					if err != nil {
+						nw.ex.Fail("subscribe-result", "remote subscription of %s returned %v", nm, err)
+					}
+				}
+				nw.ex.Thread("PUB", func() {
+					nw.a.n.Send(nw.a.pids["P"], doMsg{func(p *probe) error {
+						for _, pl := range []string{"e1", "e2", "e3"} {
+							if err := p.SendEvent("ev", ea.token, pl); err != nil {
+								nw.ex.Fail("publish-result", "SendEvent returned %v", err)
+							}
+						}
+						return nil
+					}})
+				})
+				nw.Check = func() {
+					want := "[e1 e2 e3]"
+					if got := fmt.Sprint(ea.got["L"]); got != want {
+						nw.ex.Fail("publication-count", "the local subscriber handled %s", got)
+					}
+					for _, nm := range names {
+						if got := fmt.Sprint(eb.got[nm]); got != want {
+							nw.ex.Fail("publication-count", "remote subscriber %s (one of %d on its node) handled %s, published %s", nm, nsub, got, want)
+						}
+					}
+					nw.Out("L=%v R1=%v", ea.got["L"], eb.got["R1"])
+				}
+			})})
+		}})
+	}
 	// register || publish with the zero token
 	harn.Register(harn.Scenario{Property: "C18", Name: "race-register-zero-token", Run: func(c *harn.Ctx) *harn.Result {
 		return harn.Explore(c, harn.Sched{QuickBound: 2, ThoroughBound: 3, Preempt: true, Cache: true, Body: nodeBody(func(w *World) {
